@@ -107,7 +107,7 @@ func c11(r *Report) {
 	r.Guard("C11.R1", "every encoding is decoded and re-encoded by inverse codecs of the same wire format; all switches cover all encodings", func() {
 		// a message that cannot be decoded or re-encoded is an error of the stream, not a
 		// message passed on undecoded
-		for _, n := range []string{"adapter.Data", "adapter.Header", "emitter.Message"} {
+		for _, n := range []string{"adapter.Data", "adapter.Header", "emitter.Message", "gunzip", "deflate"} {
 			errorsReturnedRule(r, r.W.Fn("h2/grpc", n), false)
 		}
 
@@ -246,6 +246,38 @@ func c11(r *Report) {
 					}
 				}
 			}
+			// what the encoder produced is what goes on the wire: the bytes of the buffer the
+			// encoder writes into reach the payload write / the sink
+			produced := false
+			var sinkBuf ssa.Value
+			if len(c.Call.Args) > 0 {
+				for x := range w.backSlice(c.Call.Args[0], flowOpt{}) {
+					if a, isA := x.(*ssa.Alloc); isA && strings.HasSuffix(a.Type().String(), "bytes.Buffer") {
+						sinkBuf = a
+					}
+				}
+			}
+			if sinkBuf != nil {
+				for _, wc := range calls(em) {
+					n := calleeName(wc)
+					if n != "(*bytes.Buffer).Write" && !(wc.Common().IsInvoke() && wc.Common().Method.Name() == "Data") {
+						continue
+					}
+					args := wc.Common().Args
+					payload := args[len(args)-1]
+					if n == "(*bytes.Buffer).Write" {
+						payload = args[1]
+					} else {
+						payload = args[0]
+					}
+					for _, l := range resolveAll(payload) {
+						if bc, isC := l.(*ssa.Call); isC && calleeName(bc) == "(*bytes.Buffer).Bytes" && bc.Call.Args[0] == sinkBuf {
+							produced = true
+						}
+					}
+				}
+			}
+			r.Decide("flow", "(*M/h2/grpc.emitter).Message: the output of "+site(em, c)+" is the payload that is framed", produced, "buf.Bytes() of the encoder's buffer is one of the values of the payload", "the encoder's output is dropped: the message goes out uncompressed under a prefix that says compressed", c.Pos())
 			r.Decide("flow", "(*M/h2/grpc.emitter).Message: "+site(em, c)+" serves one message", closed && !kept, "the encoder is closed in the call that made it and is not stored in a field", "the encoder outlives the message (kept in a field, flushed instead of closed): later messages on the stream are not complete containers of their own and the receiver rejects them", c.Pos())
 		}
 
@@ -571,7 +603,16 @@ func c11(r *Report) {
 							perStream = false
 						}
 					}
-					r.Decide("flow", fmt.Sprintf("%s: the gRPC mark is allocated per stream (store #%d)", fnName(f), n), perStream, "the address of a variable of the per-stream factory call", "the adapters share a gRPC mark that outlives the stream (captured from the enclosing function, a field, a global): once one stream was gRPC every later stream of the factory is parsed as gRPC and plain streams are buffered for ever", st.Pos())
+					for _, l := range resolveAll(st.Val) {
+						if a, isA := l.(*ssa.Alloc); isA {
+							for _, ist := range storesTo(a) {
+								if k, isK := constInt(ist.Val); ist.Parent() == f && (!isK || k != 0) {
+									perStream = false
+								}
+							}
+						}
+					}
+					r.Decide("flow", fmt.Sprintf("%s: the gRPC mark is allocated per stream (store #%d)", fnName(f), n), perStream, "the address of a variable of the per-stream factory call, initially 0", "the adapters share a gRPC mark that outlives the stream or starts set (captured from the enclosing function, a field, a global): once one stream was gRPC every later stream of the factory is parsed as gRPC and plain streams are buffered for ever", st.Pos())
 				}
 			}
 			if n == 0 {
@@ -886,6 +927,127 @@ func c11(r *Report) {
 					}
 				}
 			}
+		}
+		// the wait-for-more decision at the bottom of the loop, as a truth table: the adapter
+		// returns to wait exactly when the buffer is empty and it is not sitting on a complete
+		// zero-length message
+		{
+			var lenTests []*ssa.BinOp
+			for _, in := range instrs(ad) {
+				b, isB := in.(*ssa.BinOp)
+				if !isB || !inLoop(b.Block()) {
+					continue
+				}
+				if c, isC := unwrapConv(b.X).(*ssa.Call); isC && calleeName(c) == "(*bytes.Buffer).Len" {
+					if _, isK := constInt(b.Y); isK && len(branchesOn(b)) > 0 {
+						// the one that decides a return, not the one feeding the Message call
+						if _, isIf := b.Block().Instrs[len(b.Block().Instrs)-1].(*ssa.If); isIf && (*b.Referrers())[0] == b.Block().Instrs[len(b.Block().Instrs)-1] {
+							// the bottom of the loop: one successor is the loop head
+							for _, sc := range b.Block().Succs {
+								if sc != b.Block() && sc.Dominates(b.Block()) {
+									lenTests = append(lenTests, b)
+								}
+							}
+						}
+					}
+				}
+			}
+			okTable := len(lenTests) > 0
+			for _, lt := range lenTests {
+				for _, bl := range []int64{0, 1, 7} {
+					for _, inData := range []bool{false, true} {
+						for _, zero := range []bool{false, true} {
+							leaf := func(v ssa.Value) (bool, bool) {
+								b, isB := v.(*ssa.BinOp)
+								if !isB {
+									return false, false
+								}
+								if c, isC := unwrapConv(b.X).(*ssa.Call); isC && calleeName(c) == "(*bytes.Buffer).Len" {
+									if k, isK := constInt(b.Y); isK {
+										return cmpHolds(b.Op, bl, k), true
+									}
+								}
+								if ld, isLd := b.X.(*ssa.UnOp); isLd {
+									if fa, isFa := ld.X.(*ssa.FieldAddr); isFa {
+										switch fieldObj(fa).Name() {
+										case "length":
+											if k, isK := constInt(b.Y); isK {
+												n := int64(5)
+												if zero {
+													n = 0
+												}
+												return cmpHolds(b.Op, n, k), true
+											}
+										case "state":
+											if k, isK := constInt(b.Y); isK {
+												// readingMessageData is the state whose constant the pinned comparison uses
+												st := k
+												if !inData {
+													st = k + 1
+												}
+												return cmpHolds(b.Op, st, k), true
+											}
+										}
+									}
+								}
+								return false, false
+							}
+							out, okD := decide(lt.Block(), leaf)
+							if !okD {
+								okTable = false
+								continue
+							}
+							_, returns := out.Instrs[len(out.Instrs)-1].(*ssa.Return)
+							want := bl == 0 && !(inData && zero)
+							if returns != want {
+								okTable = false
+							}
+						}
+					}
+				}
+			}
+			r.Decide("path", "(*M/h2/grpc.adapter).Data: the adapter waits for more bytes exactly when the buffer is empty and no zero-length message is pending", okTable, "truth table over buffer length {0,1,7} x state x pending length evaluates to: return iff empty and not (reading data and length 0)", "the wait-for-more test at the bottom of the reassembly loop has another truth table: complete messages already in the buffer are not delivered (the adapter returns although bytes remain), or it spins / waits with a zero-length message pending", ad.Pos())
+		}
+		// the last message of a frame that ends the stream carries the end-of-stream mark, and
+		// only that one: streamEnded && nothing left in the buffer
+		for _, c := range calls(ad) {
+			cc := c.Common()
+			if !cc.IsInvoke() || cc.Method.Name() != "Message" || len(cc.Args) != 2 {
+				continue
+			}
+			if _, isConst := cc.Args[1].(*ssa.Const); isConst {
+				continue // the bare end-of-stream notification Message(nil, true)
+			}
+			sl := w.backSlice(cc.Args[1], flowOpt{BinOps: true})
+			fromParam := anyIn(sl, func(v ssa.Value) bool { p, y := v.(*ssa.Parameter); return y && p.Type().String() == "bool" })
+			okLen, n := true, 0
+			for v := range sl {
+				b, isB := v.(*ssa.BinOp)
+				if !isB {
+					continue
+				}
+				if lc, isC := unwrapConv(b.X).(*ssa.Call); isC && calleeName(lc) == "(*bytes.Buffer).Len" {
+					if k, isK := constInt(b.Y); isK {
+						n++
+						if !cmpHolds(b.Op, 0, k) || cmpHolds(b.Op, 1, k) || cmpHolds(b.Op, 9, k) {
+							okLen = false
+						}
+					}
+				}
+			}
+			r.Decide("flow", "(*M/h2/grpc.adapter).Data: a message is marked end-of-stream only when the frame ended the stream and nothing is left in the buffer", fromParam && okLen && n == 1, "streamEnded && buffer.Len() == 0", "the end-of-stream mark of a delivered message does not mean \"frame ended the stream and no further message is buffered\": with several messages in the last DATA frame the mark goes on an earlier one (or on none)", c.Pos())
+		}
+		// the gRPC mark is set exactly when the stored value is positive
+		if ie := r.W.Fn("h2/grpc", "adapter.isEnabled"); ie != nil && ie.Blocks != nil {
+			okE := false
+			for _, ret := range returns(ie) {
+				if b, isB := ret.Results[0].(*ssa.BinOp); isB {
+					if k, isK := constInt(b.Y); isK && cmpHolds(b.Op, 1, k) && !cmpHolds(b.Op, 0, k) {
+						okE = true
+					}
+				}
+			}
+			r.Decide("flow", "(*M/h2/grpc.adapter).isEnabled: true for a set mark, false for a clear one", okE, "the comparison holds for 1 and not for 0", "isEnabled is true for a clear mark: every stream, gRPC or not, is parsed as gRPC", ie.Pos())
 		}
 		r.Decide("path", "(*M/h2/grpc.adapter).Data: a zero-length message is delivered without waiting for more bytes", ok, "the empty-buffer return is bypassed when the pending message has length 0", "after reading the prefix of a zero-length message the adapter waits for more data: the message (and an END_STREAM on that frame) is never delivered", ad.Pos())
 	})
